@@ -207,7 +207,7 @@ fn tod_total(dt: &NaiveDateTime) -> i128 {
     dt.hour as i128 * 3_600_000_000 + dt.minute as i128 * 60_000_000 + dt.sec as i128 * 1_000_000 + dt.usec as i128
 }
 
-//@ unit s05_conv_date prop=C05,C02,C03 engine=smt chunks=tuples:-999999999,0;1,1250;1251,2500;2501,3750;3751,5000;5001,6250;6251,7500;7501,8750;8751,9999;10000,999999999 quick=all bound="every NaiveDateTime (all nine fields symbolic; year in the sub-range given by the parameters - together |year| <= 999,999,999 as the nine-digit parser can produce): Date::try_from = the date denoted or the documented error"
+//@ unit s05_conv_date prop=C05,C02,C03,C15 engine=smt chunks=tuples:-999999999,0;1,1250;1251,2500;2501,3750;3751,5000;5001,6250;6251,7500;7501,8750;8751,9999;10000,999999999 quick=all bound="every NaiveDateTime (all nine fields symbolic; year in the sub-range given by the parameters - together |year| <= 999,999,999 as the nine-digit parser can produce): Date::try_from = the date denoted or the documented error"
 fn s05_conv_date(ylo: i32, yhi: i32) {
     let dt = any_naive(ylo, yhi);
     let (y, m, d) = (dt.year, dt.month, dt.day);
@@ -220,7 +220,7 @@ fn s05_conv_date(ylo: i32, yhi: i32) {
     }
 }
 
-//@ unit s05_conv_time prop=C05,C02,C03 engine=smt bound="every NaiveDateTime: Time::try_from = h:m:s + usec with the carry, TimeOutOfRange when the carried value reaches 24 h"
+//@ unit s05_conv_time prop=C05,C02,C03,C15 engine=smt bound="every NaiveDateTime: Time::try_from = h:m:s + usec with the carry, TimeOutOfRange when the carried value reaches 24 h"
 fn s05_conv_time() {
     let dt = any_naive(-999_999_999, 999_999_999);
     let fields = dt.hour < 24 && dt.minute < 60 && dt.sec < 60;
@@ -239,7 +239,7 @@ fn s05_conv_time() {
     }
 }
 
-//@ unit s05_conv_ts prop=C05,C02,C03 engine=smt timeout=1800 chunks=tuples:-999999999,0;1,1250;1251,2500;2501,3750;3751,5000;5001,6250;6251,7500;7501,8750;8751,9999;10000,999999999 quick=all bound="every NaiveDateTime (year in the sub-range given by the parameters): Timestamp::try_from = date and time denoted with the microsecond carry into seconds..days, error iff a field is invalid or the carried value leaves the range"
+//@ unit s05_conv_ts prop=C05,C02,C03,C15 engine=smt timeout=1800 chunks=tuples:-999999999,0;1,1250;1251,2500;2501,3750;3751,5000;5001,6250;6251,7500;7501,8750;8751,9999;10000,999999999 quick=all bound="every NaiveDateTime (year in the sub-range given by the parameters): Timestamp::try_from = date and time denoted with the microsecond carry into seconds..days, error iff a field is invalid or the carried value leaves the range"
 fn s05_conv_ts(ylo: i32, yhi: i32) {
     let dt = any_naive(ylo, yhi);
     let (y, m, d) = (dt.year, dt.month, dt.day);
@@ -266,7 +266,7 @@ fn s05_conv_ts(ylo: i32, yhi: i32) {
     }
 }
 
-//@ unit s05_conv_od prop=C05,C02,C03,C16 engine=smt timeout=1800 bound="every NaiveDateTime with a year in 1..=9999: OracleDate::try_from = Timestamp::try_from (replaced by its contract, which s05_conv_ts decides) floored to the whole second, errors passed through"
+//@ unit s05_conv_od prop=C05,C02,C03,C16,C15 engine=smt timeout=1800 bound="every NaiveDateTime with a year in 1..=9999: OracleDate::try_from = Timestamp::try_from (replaced by its contract, which s05_conv_ts decides) floored to the whole second, errors passed through"
 fn s05_conv_od() {
     let dt = any_naive(1, 9999);
     let (y, m, d) = (dt.year, dt.month, dt.day);
@@ -285,7 +285,7 @@ fn s05_conv_od() {
     }
 }
 
-//@ unit s05_conv_ym prop=C05,C02,C03 engine=smt bound="every NaiveDateTime whose sign flag agrees with the sign of the year field: IntervalYM::try_from = sign x (|years|*12 + months)"
+//@ unit s05_conv_ym prop=C05,C02,C03,C15 engine=smt bound="every NaiveDateTime whose sign flag agrees with the sign of the year field: IntervalYM::try_from = sign x (|years|*12 + months)"
 fn s05_conv_ym() {
     let dt = any_naive(-999_999_999, 999_999_999);
     kani::assume(if dt.negative { dt.year <= 0 } else { dt.year >= 0 });
@@ -299,7 +299,7 @@ fn s05_conv_ym() {
     }
 }
 
-//@ unit s05_conv_dt prop=C05,C02,C03 engine=smt bound="every NaiveDateTime: IntervalDT::try_from = sign x (days, h, m, s, usec) with a fraction of exactly 1,000,000 us carried into the seconds"
+//@ unit s05_conv_dt prop=C05,C02,C03,C15 engine=smt bound="every NaiveDateTime: IntervalDT::try_from = sign x (days, h, m, s, usec) with a fraction of exactly 1,000,000 us carried into the seconds"
 fn s05_conv_dt() {
     let dt = any_naive(-999_999_999, 999_999_999);
     let fields = dt.hour < 24 && dt.minute < 60 && dt.sec < 60 && dt.usec <= 1_000_000;
@@ -374,21 +374,22 @@ fn s16_interval_dt() {
     }
 }
 
-//@ unit s16_add_days prop=C16,C02,C03 engine=smt bound="every Oracle-style date and every value the underlying Timestamp::add_days can return (havoc): the result is that value rounded to the nearest whole second (ties away from zero) in exact integer arithmetic, DateOutOfRange iff the rounded value is past the maximum; the f64 offset itself is covered by c08_ts_add_days and c16_add_days_pool"
+//@ unit s16_add_days prop=C16,C02,C03,C17 engine=smt bound="every Oracle-style date and every value the underlying Timestamp::add_days can return (havoc): the result is that value rounded to the nearest whole second (ties away from zero) in exact integer arithmetic, DateOutOfRange iff the rounded value is past the maximum; the f64 offset itself is covered by c08_ts_add_days and c16_add_days_pool"
 fn s16_add_days() {
-    // native twin: for an offset of hu microseconds expressed in days the real code must agree
-    let secs: i64 = kani::any();
+    // native twin: the intermediate timestamp `hu` is reached from the Oracle-style date of its own
+    // whole second by an offset below one second (exactly representable as a day fraction); the
+    // model's own date operand is drawn to keep the input order but not used
+    let _secs: i64 = kani::any();
     let hu: i64 = kani::any();
-    kani::assume(secs >= TS_MIN / 1_000_000 && secs <= TS_MAX / 1_000_000 && hu >= TS_MIN && hu <= TS_MAX);
-    let od = mk_od(secs * 1_000_000);
-    // choose the offset that moves the date to hu when it is exactly representable
-    let delta = hu as i128 - secs as i128 * 1_000_000;
+    kani::assume(hu >= TS_MIN && hu <= TS_MAX);
+    let lo = hu - hu.rem_euclid(1_000_000);
+    let od = mk_od(lo);
+    let delta = hu - lo;
     let days = delta as f64 / 86_400_000_000.0;
     let back = (days * 86_400_000_000.0).round();
-    if back as i128 != delta {
+    if back as i64 != delta {
         return; // not exactly reachable through the f64 offset: nothing to replay
     }
-    let lo = hu - hu.rem_euclid(1_000_000);
     let fr = hu - lo;
     let e = if fr > 500_000 { lo + 1_000_000 } else if fr < 500_000 { lo } else if hu > 0 { lo + 1_000_000 } else { lo };
     match od.add_days(days) {
@@ -598,19 +599,34 @@ fn s09_ts_add_months() {
     let u: i64 = kani::any();
     let k: i32 = kani::any();
     kani::assume(u >= TS_MIN && u <= TS_MAX && k >= -YM_MAX && k <= YM_MAX);
-    let ts = mk_ts(u);
-    let n = u.div_euclid(USECS_DAY);
+    // The solver's model fixes the timestamp and the offset, but the date-level arithmetic is an
+    // uninterpreted function there: whether a wrong date part shows through the real month arithmetic
+    // depends on where the month ends are.  The replay therefore confirms the counterexample on the
+    // model's timestamp and on the same time of day over the neighbouring 40 days, with the model's
+    // offset and with +-1 and 12 months.
+    let n0 = u.div_euclid(USECS_DAY);
     let t = u.rem_euclid(USECS_DAY);
-    let d = mk_date(n as i32);
-    match (ts.add_interval_ym(mk_ym(k)), d.add_interval_ym(mk_ym(k))) {
-        (Ok(a), Ok(b)) => assert!(a.usecs() == b.usecs() + t),
-        (Err(_), Err(_)) => {}
-        _ => assert!(false),
-    }
-    match (ts.sub_interval_ym(mk_ym(k)), d.sub_interval_ym(mk_ym(k))) {
-        (Ok(a), Ok(b)) => assert!(a.usecs() == b.usecs() + t),
-        (Err(_), Err(_)) => {}
-        _ => assert!(false),
+    let mut dn: i64 = -40;
+    while dn <= 40 {
+        let n = n0 + dn;
+        dn += 1;
+        if n < DAY_MIN as i64 || n > DAY_MAX as i64 {
+            continue;
+        }
+        let d = mk_date(n as i32);
+        let ts = mk_ts(n * USECS_DAY + t);
+        for kk in [k, 1, -1, 12] {
+            match (ts.add_interval_ym(mk_ym(kk)), d.add_interval_ym(mk_ym(kk))) {
+                (Ok(a), Ok(b)) => assert!(a.usecs() == b.usecs() + t),
+                (Err(_), Err(_)) => {}
+                _ => assert!(false),
+            }
+            match (ts.sub_interval_ym(mk_ym(kk)), d.sub_interval_ym(mk_ym(kk))) {
+                (Ok(a), Ok(b)) => assert!(a.usecs() == b.usecs() + t),
+                (Err(_), Err(_)) => {}
+                _ => assert!(false),
+            }
+        }
     }
 }
 
